@@ -3,7 +3,7 @@
 
 Deterministic simulation with fault injection; see DESIGN.md section 3.
 
-usage: c12.py --tier quick|thorough [--budget S] [--only A,B,C,T,R,D] [--replay FILE]
+usage: c12.py --tier quick|thorough [--budget S] [--only A,B,C,T,R,D,W] [--replay FILE]
 exit 0: held on everything explored; 1: VIOLATION line(s) printed; 2: harness error.
 """
 
@@ -28,7 +28,7 @@ def main():
     ap = argparse.ArgumentParser()
     ap.add_argument("--tier", default=os.environ.get("VERIF_TIER", "quick"))
     ap.add_argument("--budget", type=float, default=None, help="seconds of exploration per workload group")
-    ap.add_argument("--only", default=None, help="comma list of workloads (A,B,C,T,R,D)")
+    ap.add_argument("--only", default=None, help="comma list of workloads (A,B,C,T,R,D,W)")
     ap.add_argument("--replay", default=None)
     ap.add_argument("--nproc", type=int, default=int(os.environ.get("VERIF_NPROC", "16")))
     ap.add_argument("--no-evidence", action="store_true")
